@@ -78,7 +78,7 @@ def render_c(items, seed=0, fortran=False, uid="x"):
         if k == "code":
             ncode += 1
             if fortran:
-                v = rnd.choice([f"{uid}{ncode} = {ncode}", f"call f({uid}{ncode})", f"s = 'a!b' // \"c&d\""])
+                v = rnd.choice([f"{uid}{ncode} = {ncode}", f"call f({uid}{ncode})", f"{uid}{ncode} = 'a!b' // \"c&d\""])
                 if rnd.random() < 0.25:
                     ls = emit(f"{uid}{ncode} = {ncode} + &", f"  & {ncode}")
                 else:
